@@ -51,6 +51,8 @@ try:
     if not ok:
         print(out0[-300:]); print(out1[-300:]); sys.exit(4)
     props = (a.props or meta['property']).split(',')
+    if a.props is None and isinstance(meta.get('checks'), dict):
+        props += [p_ for p_ in sorted(meta['checks']) if p_ not in props]
     rec['checks'] = {}
     for p in props:
         e = dict(clean_env); e['TOPSIM_REPO'] = src; e['VERIF_OUT'] = os.path.join(root, 'out')
@@ -66,8 +68,9 @@ try:
         if r.returncode == 2: print(r.stdout[-1500:])
     if not a.no_store:
         dst = os.path.join(VERIF, 'seeded', a.sid); os.makedirs(dst, exist_ok=True)
-        shutil.copy(patch, os.path.join(dst, 'patch.diff'))
-        open(os.path.join(dst, 'demo.py'), 'w').write(open(demo).read().replace('/tmp/wt/standin', os.path.join(VERIF, 'tsim', 'fakes')))
+        if os.path.abspath(patch) != os.path.abspath(os.path.join(dst, 'patch.diff')):
+            shutil.copy(patch, os.path.join(dst, 'patch.diff'))
+            open(os.path.join(dst, 'demo.py'), 'w').write(open(demo).read().replace('/tmp/wt/standin', os.path.join(VERIF, 'tsim', 'fakes')))
         old = {}
         if os.path.exists(os.path.join(dst, 'meta.json')):
             old = json.load(open(os.path.join(dst, 'meta.json')))
